@@ -293,3 +293,13 @@ package semantic
 //@   ensures result2 == nil ==> result0 != nil && result1 != nil && result1.Reference == nil && (result1.IsTypedef == nil || !*result1.IsTypedef)
 //@   ensures result2 == nil && old(t.Reference) == nil && (old(t.IsTypedef) == nil || !old(*t.IsTypedef)) ==> result0 == ast && result1 == t
 //@   ensures result2 != nil ==> result0 == nil && result1 == nil
+
+// CheckAll (C04): an error of any check on any file of the include graph is the result -- it is not overwritten by the
+// checks of a later file (ghost flag `propagates`: $failed becomes true when a callee returns a non-nil error).
+//@ func (c *checker) CheckAll(t *parser.Thrift) (warns []string, err error)
+//@   requires c != nil && t != nil
+//@   propagates
+//@   modifies *
+//@   ensures $failed ==> err != nil
+//@   loop 1 invariant !$failed
+//@   loop 1.1 invariant !$failed
